@@ -87,6 +87,16 @@ def gen_cases(ctx):
                "seed": rng.randrange(2**31)}
 
 
+def witnesses(ctx):
+    """Known-finding witness: float32 resolution of the observer-based MWKR rule."""
+    yield {"kind": "mwkr_twin", "filter": None, "seed": 1479390188,
+           "instance": {"cls": "huge",
+                        "durations": [[8, 67108950, 8], [67108983, 6], [67108937, 67108895, 67108931, 48],
+                                      [67108982, 67108879, 67108957], [67108953, 54, 67108984]],
+                        "machines": [[[1], [1], [0]], [[0], [0]], [[0], [0], [0], [0]],
+                                     [[0], [1], [0]], [[0], [0], [0]]]}}
+
+
 def score_functions():
     from job_shop_lib.dispatching.rules import (
         shortest_processing_time_score, first_come_first_served_score,
@@ -327,6 +337,7 @@ def run_mwkr_twin(ctx, case):
         if a is not b:
             ctx.violation("c04_direct_and_observer_mwkr_differ",
                           {"direct": a.operation_id, "observer": b.operation_id,
+                           "available": [o.operation_id for o in run.d.available_operations()],
                            "history": list(run.r.history), "filter": run.filter_names})
         o, m = run.choose(rng, rng.choice(["random_available", "random_ready"]))
         run.dispatch(o, m)
